@@ -317,11 +317,14 @@ pub fn text_violations_lim<T: RecognizerReadable + std::fmt::Debug>(
     };
     if let Out::Panic(m) = &oneshot {
         push(
-            format!("law=no_panic op=parse_recognize text_class={}", text_shape(text)),
+            format!("law=no_panic op=parse_recognize panic={}", normalise_panic(m)),
             format!("one-shot parser panicked on {:?}: {}", clip(text), m),
             "oneshot",
             &[],
         );
+        // the decoders run the same parser: their panics on this text are the same defect
+        drop(push);
+        return (out.into_values().collect(), st, oneshot);
     }
     // interior positions (inside a token or inside a UTF-8 sequence) for the anti-vacuity count
     let interior = (1..n).filter(|&c| toks.iter().any(|t| t.start < c && c < t.end)).count() as u64;
@@ -380,7 +383,9 @@ pub fn text_violations_lim<T: RecognizerReadable + std::fmt::Debug>(
                     _ => "chunk_independent",
                 };
                 push(
-                    if law == "chunk_independent" && cuts_first_primitive(text, cutv, 0) {
+                    if let Out::Panic(m) = &first {
+                        format!("law=no_panic decoder=RecognizerDecoder panic={}", normalise_panic(m))
+                    } else if law == "chunk_independent" && cuts_first_primitive(text, cutv, 0) {
                         "law=chunk_independent decoder=RecognizerDecoder input=top_level_primitive_token_cut (the text starts with a primitive token at the top level and a cut falls inside it)".to_string()
                     } else {
                         format!("law={} decoder=RecognizerDecoder cut={} oneshot={} chunked={}", law, locus, oneshot.class(), got)
@@ -486,7 +491,9 @@ pub fn text_violations_lim<T: RecognizerReadable + std::fmt::Debug>(
                 })
                 .collect();
             push(
-                if law == "chunk_independent" && cuts_first_primitive(text, cutv, 8) {
+                if let Some(Out::Panic(m)) = results.iter().find(|r| matches!(r, Out::Panic(_))) {
+                    format!("law=no_panic decoder=WithLenRecognizerDecoder panic={}", normalise_panic(m))
+                } else if law == "chunk_independent" && cuts_first_primitive(text, cutv, 8) {
                     "law=chunk_independent decoder=WithLenRecognizerDecoder input=top_level_primitive_token_cut (the text starts with a primitive token at the top level and a cut falls inside it)".to_string()
                 } else {
                     format!("law={} decoder=WithLenRecognizerDecoder cut={} oneshot={} results=[{}]", law, locus, oneshot.class(), got.join(","))
@@ -536,6 +543,27 @@ pub fn cuts_first_primitive(text: &str, cutv: &[usize], offset: usize) -> bool {
     let rest = &text[start..];
     let len = rest.find(|c: char| c.is_whitespace() || "@{}(),:;\"".contains(c)).unwrap_or(rest.len());
     len >= 2 && cutv.iter().any(|c| *c > offset + start && *c < offset + start + len)
+}
+
+/// Panic message with digit runs replaced by N (positions vary), clipped.
+pub fn normalise_panic(m: &str) -> String {
+    let mut s = String::new();
+    let mut in_digits = false;
+    for c in m.chars() {
+        if c.is_ascii_digit() {
+            if !in_digits {
+                s.push('N');
+            }
+            in_digits = true;
+        } else {
+            in_digits = false;
+            s.push(if c == '\n' { ' ' } else { c });
+        }
+        if s.len() > 140 {
+            break;
+        }
+    }
+    s
 }
 
 /// Coarse shape of a text: letters -> a, digits -> 1, non-ASCII -> u, runs collapsed.
